@@ -13,9 +13,9 @@
                    `StdfsEntry::from` back to its target key (`linkTextOkB`; fails e.g. for a target
                    whose name contains `$`); (c) the process cwd is an existing directory;
                    (d) no path argument of `op`, resolved lexically, has a link as a proper ancestor
-                   (`argOk`); (e) the operation-specific exclusions `opOk`, one per finding S6–S8, S11–S14, S16 (for the listings, `chown` and `chmod` also `keysRT`:
+                   (`argOk`); (e) the operation-specific exclusions `opOk`, one per finding S6, S8, S11–S14, S16 (for the listings, `chown` and `chmod` also `keysRT`:
                    every key, rendered, is resolved by `abs` to itself — `DirEntry::path()` is re-resolved)
-                   (S1–S5 and S15 were repaired in the Rust code and their exclusions are gone);
+                   (S1–S5, S7 and S15 were repaired in the Rust code and their exclusions are gone);
   * `CoveredS op`— the 43 operations for which the refinement is proved (`chmodB` only without a symbolic expression);
   * `ResMatchOkErr` — ok-vs-err agreement and, on ok, equal values;
   * `TEquiv`     — same cwd and the same node under every key.
@@ -110,12 +110,23 @@ theorem C02_S6_is_exec_follows_link :
     specStep envNone treeLinkFile (.isExec ['/', 'l']) = some (.ok (.bool true), treeLinkFile) :=
   ⟨by decide, by decide, by decide, rfl⟩
 
-/-- S7: `dirs` lists links to directories as well (`StdfsEntry::is_dir` is the target's) -/
-theorem C02_S7_dirs_lists_links :
-    Wf treeLinkDir ∧ D2base envNone treeLinkDir (.dirs ['/']) ∧
-    Stdfs.step envNone treeLinkDir (.dirs ['/']) = (.ok (.paths [[['d']], [['l']]]), treeLinkDir) ∧
-    specStep envNone treeLinkDir (.dirs ['/']) = some (.ok (.paths [[['d']]]), treeLinkDir) :=
-  ⟨by decide, by decide, by decide, rfl⟩
+/-- S7 (repaired): `dirs` / `all_dirs` no longer list a link to a directory, `files` / `all_files` no longer
+    a link to a file (the collecting loop skips links), as the reference; `paths` still lists the link.
+    The calls are now inside the domain `D2` of the per-step theorem. -/
+theorem C02_S7_repaired_dirs_skips_links :
+    Wf treeLinkDir ∧ D2 envNone treeLinkDir (.dirs ['/']) ∧
+    Stdfs.step envNone treeLinkDir (.dirs ['/']) = (.ok (.paths [[['d']]]), treeLinkDir) ∧
+    specStep envNone treeLinkDir (.dirs ['/']) = some (.ok (.paths [[['d']]]), treeLinkDir) ∧
+    Stdfs.step envNone treeLinkDir (.allDirs ['/']) = (.ok (.paths [[['d']]]), treeLinkDir) ∧
+    specStep envNone treeLinkDir (.allDirs ['/']) = some (.ok (.paths [[['d']]]), treeLinkDir) ∧
+    Stdfs.step envNone treeLinkDir (.paths ['/']) = (.ok (.paths [[['d']], [['l']]]), treeLinkDir) ∧
+    Wf treeLinkFile ∧ D2 envNone treeLinkFile (.files ['/']) ∧
+    Stdfs.step envNone treeLinkFile (.files ['/']) = (.ok (.paths [[['f']]]), treeLinkFile) ∧
+    specStep envNone treeLinkFile (.files ['/']) = some (.ok (.paths [[['f']]]), treeLinkFile) ∧
+    Stdfs.step envNone treeLinkFile (.allFiles ['/']) = (.ok (.paths [[['f']]]), treeLinkFile) ∧
+    specStep envNone treeLinkFile (.allFiles ['/']) = some (.ok (.paths [[['f']]]), treeLinkFile) :=
+  ⟨by decide, by decide, by decide, rfl, by decide, rfl, by decide, by decide, by decide, by decide, rfl,
+    by decide, rfl⟩
 
 /-- S8: `move_p` of a relative link: `rename(2)` keeps the TEXT `f`, so `/a/l → /a/f` moved to `/l`
     points to `/f`; the reference (and Memfs) keep the absolute target -/
